@@ -3,7 +3,9 @@
 //! changed config file through the watched-files path, didSave → reindex) placed at every
 //! position of every sequence of ≤ m open/change/close notifications on an on-disk document,
 //! optionally with one on-disk modification (reported by the client through
-//! didChangeWatchedFiles) as a scheduler event; all schedules up to the preemption bound.
+//! didChangeWatchedFiles) as a scheduler event, and — when the trigger precedes the last notification —
+//! also with that last notification arriving late (its arrival is a scheduler event); all schedules up
+//! to the deviation bound.
 use crate::ctl;
 use crate::world::{self, EndState, Msg, Scenario};
 use crate::{Acc, explore_scenario, finish_sched, replay_scenario};
@@ -31,8 +33,11 @@ fn notif_seqs(m: usize) -> Vec<Vec<N>> {
     v
 }
 
-fn scenario(trigger: usize, seq: &[N], pos: usize, disk_event: bool) -> Scenario {
-    let mut s = Scenario::new(&format!("{}@{pos}:{}:{}", TRIGGERS[trigger], seq.iter().map(|n| format!("{n:?}")).collect::<Vec<_>>().join(","), if disk_event { "disk-change" } else { "no-disk-change" }));
+fn scenario(trigger: usize, seq: &[N], pos: usize, disk_event: bool, late: bool) -> Scenario {
+    let mut s = Scenario::new(&format!("{}@{pos}:{}:{}{}", TRIGGERS[trigger], seq.iter().map(|n| format!("{n:?}")).collect::<Vec<_>>().join(","), if disk_event { "disk-change" } else { "no-disk-change" }, if late { ":last-arrives-late" } else { "" }));
+    // the last notification is not in the channel yet when the server starts working: when it arrives is a
+    // scheduler event (the reload can be anywhere by then)
+    s.late_messages = late as usize;
     s.disk = vec![("a.lua".into(), DISK.into()), ("b.lua".into(), "local b = 1\n".into()), (".emmyrc.json".into(), "{\"workspace\": {\"enableReindex\": true}}".into())];
     s.emmyrc = json!({"workspace": {"enableReindex": true}});
     s.pull_diagnostics = true;
@@ -129,7 +134,10 @@ fn all(m: usize) -> Vec<(Scenario, Vec<N>)> {
                             continue;
                         }
                     }
-                    out.push((scenario(trigger, &seq, pos, disk_event), seq.clone()));
+                    out.push((scenario(trigger, &seq, pos, disk_event, false), seq.clone()));
+                    if pos < seq.len() {
+                        out.push((scenario(trigger, &seq, pos, disk_event, true), seq.clone()));
+                    }
                 }
             }
         }
@@ -169,7 +177,7 @@ pub fn run(args: &Args) -> ! {
         bound_completed = b;
     }
     rep.rule = format!(
-        "{} scenarios ({run_n} run) = reload trigger {:?} at every position of every sequence of ≤{m} open/change/close notifications on an on-disk document × {{no disk change, one on-disk modification reported through didChangeWatchedFiles as a scheduler event}}; debounce timers and the client's configuration answer are scheduler events; every schedule with ≤{bound} preemptions modulo happens-before state matching; oracle at quiescence: open ⇒ open set and analysis hold the latest editor text; closed ⇒ analysis holds the disk content; the untouched file is still analysed. non-trivial = more than one decision",
+        "{} scenarios ({run_n} run) = reload trigger {:?} at every position of every sequence of ≤{m} open/change/close notifications on an on-disk document × {{no disk change, one on-disk modification reported through didChangeWatchedFiles as a scheduler event}} × {{all messages queued at once, last notification arriving as a scheduler event (when the trigger precedes it)}}; debounce timers and the client's configuration answer are scheduler events; every schedule with ≤{bound} preemptions modulo happens-before state matching; oracle at quiescence: open ⇒ open set and analysis hold the latest editor text; closed ⇒ analysis holds the disk content; the untouched file is still analysed. non-trivial = more than one decision",
         scns.len(),
         TRIGGERS
     );
